@@ -38,6 +38,7 @@ func init() {
 
 var spMutants = []map[string]string{
 	{"LazyEnabled": `"core"`}, {"OnceKind": `"flag"`}, {"ObserverAdd": `"bare"`}, {"LevelKind": `"plain"`}, {"GlobalsS": `"outside"`}, {"BwsSync": `"bare"`},
+	{"LockedSyncErr": `"leak"`}, {"ColourMemo": `"memo"`}, {"StackFree": `"twice"`, "Procs": "{1, 2, 3}"},
 }
 
 type spBeh struct {
@@ -63,7 +64,18 @@ type c09World struct {
 	slogH3  slog.Handler // a handler with three pending groups (its groups slice has spare capacity if built by append)
 	hookLog *zap.Logger  // terminal entries run a custom hook that inspects the entry it is handed
 	httpH   http.Handler
+	lockedBad  zapcore.WriteSyncer // a locked sink whose Sync always fails (stderr on a terminal does)
+	badSyncLog *zap.Logger
+	callerLog  *zap.Logger // AddCaller
+	stackLog   *zap.Logger // AddStacktrace(Warn)
+	deepSkip   *zap.Logger // AddCaller with a skip beyond the stack: "failed to get caller" on the error output
+	colourLog  *zap.Logger // console encoder with a colouring level encoder
+	colourJSON *zap.Logger
 }
+
+type c09BadSync struct{ c09Discard }
+
+func (d *c09BadSync) Sync() error { d.n++; return fmt.Errorf("sync /dev/stderr: inappropriate ioctl for device") }
 
 type c09Hook struct{ seen *int64 }
 
@@ -106,6 +118,16 @@ func c09NewWorld() *c09World {
 	var seen int64
 	w.hookLog = zap.New(base, zap.WithFatalHook(c09Hook{&seen}), zap.WithPanicHook(c09Hook{&seen}))
 	w.httpH = w.atom
+	w.lockedBad = zapcore.Lock(&c09BadSync{})
+	errOut := zap.ErrorOutput(zapcore.Lock(&c09Discard{}))
+	w.badSyncLog = zap.New(zapcore.NewCore(enc(), w.lockedBad, w.atom), errOut)
+	w.callerLog = zap.New(base, zap.AddCaller(), errOut)
+	w.stackLog = zap.New(base, zap.AddStacktrace(zapcore.WarnLevel), zap.AddCaller(), errOut)
+	w.deepSkip = zap.New(base, zap.AddCaller(), zap.AddCallerSkip(100000), errOut)
+	cenc := zapcore.EncoderConfig{MessageKey: "m", LevelKey: "l", EncodeLevel: zapcore.CapitalColorLevelEncoder}
+	w.colourLog = zap.New(zapcore.NewCore(zapcore.NewConsoleEncoder(cenc), w.locked, zapcore.DebugLevel))
+	cenc.EncodeLevel = zapcore.LowercaseColorLevelEncoder
+	w.colourJSON = zap.New(zapcore.NewCore(zapcore.NewJSONEncoder(cenc), w.locked, zap.LevelEnablerFunc(func(zapcore.Level) bool { return true })))
 	return w
 }
 
@@ -194,6 +216,28 @@ var c09Concrete = map[string][]func(w *c09World, r *rand.Rand){
 			rec.AddAttrs(slog.Group("g", slog.Int("a", 1)))
 			w.slogH.Handle(context.Background(), rec)
 		},
+	},
+	"locked.sync": {
+		func(w *c09World, r *rand.Rand) { w.lockedBad.Sync(); w.lockedBad.Write([]byte("after a failed sync\n")) },
+		func(w *c09World, r *rand.Rand) { w.badSyncLog.Sync(); w.badSyncLog.Error("after a failed sync") },
+		func(w *c09World, r *rand.Rand) { w.badSyncLog.DPanic("an entry above error level syncs its core") },
+		func(w *c09World, r *rand.Rand) { w.lockedBad.Write([]byte("raw\n")) },
+	},
+	"logger.caller": {
+		func(w *c09World, r *rand.Rand) { w.callerLog.Info("annotated with its caller") },
+		func(w *c09World, r *rand.Rand) { w.stackLog.Warn("annotated with caller and stack trace") },
+		func(w *c09World, r *rand.Rand) { w.stackLog.Sugar().Errorw("sugared, with stack trace", "k", 1) },
+		func(w *c09World, r *rand.Rand) { slog.New(w.slogH).Error("slog with caller") },
+	},
+	"logger.nocaller": {
+		func(w *c09World, r *rand.Rand) { w.deepSkip.Info("caller skip beyond the stack") },
+		func(w *c09World, r *rand.Rand) { w.deepSkip.With(zap.Int("k", 1)).Warn("caller skip beyond the stack, derived") },
+	},
+	"logger.colour": {
+		func(w *c09World, r *rand.Rand) { w.colourLog.Info("known level, coloured") },
+		func(w *c09World, r *rand.Rand) { w.colourLog.Log(zapcore.Level(20+r.Intn(60)), "unknown level, coloured") },
+		func(w *c09World, r *rand.Rand) { w.colourJSON.Log(zapcore.Level(-20-r.Intn(60)), "unknown level, lowercase colour") },
+		func(w *c09World, r *rand.Rand) { w.colourJSON.Warn("known level, lowercase colour") },
 	},
 	"logger.with": {
 		func(w *c09World, r *rand.Rand) { w.shared.With(zap.Int("w", 1), zap.Namespace("ns")).Info("derived") },
@@ -430,6 +474,19 @@ func checkC09(c *Ctx) {
 				c.Violation("C09/deadlock", fmt.Sprintf("no progress for 20 s while running %s concurrently:\n%s", name, firstLines(part[i:], 60)), map[string]interface{}{"program": name})
 			}
 		}
+		if i := strings.Index(r.out, "fatal error: concurrent map"); i >= 0 && strings.Contains(r.out[i:], "go.uber.org/zap") {
+			// the runtime's own detector: unsynchronised map access aborts the process
+			name := "?"
+			if j := strings.LastIndex(r.out[:i], "C09-PROGRAM "); j >= 0 {
+				var pi int
+				fmt.Sscan(r.out[j+len("C09-PROGRAM "):], &pi)
+				if pi < len(r.batchNames) {
+					name = r.batchNames[pi]
+				}
+			}
+			c.Violation("C09/race", fmt.Sprintf("the runtime aborted the process while running %s concurrently:\n%s", name, firstLines(r.out[i:], 30)), map[string]interface{}{"program": name})
+			continue
+		}
 		if !strings.Contains(r.out, "C09-DONE") && !strings.Contains(r.out, "C09-HANG") && r.code != 66 {
 			c.Inconclusive("child batch ended abnormally (status %d): %s", r.code, firstLines(r.out, 8))
 		}
@@ -437,7 +494,7 @@ func checkC09(c *Ctx) {
 	// gate-forced first use of a lazy logger (nil core before it exists = a panic)
 	runLazyOnce(c, "C09/", func(k string) bool { return k == "lazy/panic" })
 	c.Set("exhaustive", false)
-	c.Set("rule", fmt.Sprintf("every unordered pair of the 16 protocol operations of SyncProtocol.tla and a seeded sample of triples, each %d times on fresh fixtures (one third single-shot, two thirds as tight loops of 60 iterations, half of those with two goroutines per process) under the race detector with GOMAXPROCS 1..8; LazyOnce.tla schedules forced through gates", reps))
+	c.Set("rule", fmt.Sprintf("every unordered pair of the 20 protocol operations of SyncProtocol.tla and a seeded sample of triples, each %d times on fresh fixtures (one third single-shot, two thirds as tight loops of 60 iterations, half of those with two goroutines per process) under the race detector with GOMAXPROCS 1..8; LazyOnce.tla schedules forced through gates", reps))
 }
 
 func firstLines(s string, n int) string {
